@@ -1,3 +1,4 @@
+\* quick: node family, 1..3 nodes over all layouts, node names vary
 CONSTANTS
   Layouts = {1, 3, 4, 5, 6, 7, 8, 9, 10, 11}
   Tops = {"graph", "function"}
